@@ -436,6 +436,16 @@ def must_visit(n, derived, is_fold_call, depth=0):
                         return False
                 elif x.get("k") in ("Ret", "Continue", "Break") and not is_err_exit(x):
                     return False
+            # .. also a *conditional* way out that is not an error (`if other.is_empty() { return Ok(..) }`): on that path the
+            # child is never visited - unless the condition is about the child itself
+            for x, par in walk(st):
+                if x.get("k") != "Ret" or is_err_exit(x) or any(p_.get("k") == "Closure" for p_ in par):
+                    continue
+                conds = [p_["c"] for p_ in par if p_.get("k") == "If"]
+                if conds and all(Flow.mentions(c_, derived) and not _mentions_other(c_, derived) for c_ in conds):
+                    continue
+                if conds:
+                    return False
         return False
     if k == "ForLoop":
         return must_visit(n["iter"], derived, is_fold_call, depth + 1) or must_visit(n["body"], derived, is_fold_call, depth + 1)
